@@ -67,8 +67,55 @@ pub fn random_tokens(rng: &mut StdRng, n: usize) -> String {
 }
 
 /// Texts for the C02 / C05 input space; kind names the source of each
+/// `stop` / `volgende` / `antwoord` in every unusual place: a text of this list is either rejected by the front
+/// end or compiles to code that passes the verifier (a jump may never leave the body it was written in)
+pub fn placement_corners() -> Vec<String> {
+    let mut v: Vec<String> = Vec::new();
+    let jumps = ["stop", "volgende"];
+    for j in jumps {
+        // a function literal inside a loop: at top level, inside another function, named / anonymous / stored, nested twice
+        v.push(format!("zolang ja {{ functie f() {{ {j} }}; f(); stop }}"));
+        v.push(format!("functie g() {{ zolang ja {{ functie f() {{ {j} }}; f(); stop }} }} g()"));
+        v.push(format!("functie g() {{ stel i = 0; zolang i < 3 {{ i += 1; stel h = functie() {{ {j} }}; h() }}; i }} g()"));
+        v.push(format!("functie g() {{ zolang ja {{ functie f() {{ als ja {{ {j} }} }}; f(); stop }} }} g()"));
+        v.push(format!("functie g() {{ zolang ja {{ functie f() {{ functie k() {{ {j} }}; k() }}; f(); stop }} }} g()"));
+        v.push(format!("functie g() {{ zolang ja {{ functie f() {{ zolang nee {{ }}; {j} }}; f(); stop }} }} g()"));
+        v.push(format!("functie g() {{ zolang ja {{ print(functie() {{ {j} }}); stop }} }} g()"));
+        // inside the function's own loop it is fine
+        v.push(format!("functie g() {{ zolang ja {{ functie f() {{ stel n = 0; zolang n < 2 {{ n += 1; {j} }}; n }}; print(f()); stop }} }} g()"));
+        // in the condition of a loop, in an operand, in an argument
+        v.push(format!("stel i = 0; zolang als i < 2 {{ i += 1; ja }} anders {{ {j}; nee }} {{ i }}"));
+        v.push(format!("stel i = 0; zolang i < 2 {{ i += 1; stel t = 1 + als i == 1 {{ {j} }} anders {{ 2 }}; print(t) }}; i"));
+        v.push(format!("stel i = 0; zolang i < 2 {{ i += 1; print(als i == 1 {{ {j} }} anders {{ 2 }}) }}; i"));
+        v.push(format!("stel i = 0; zolang i < 2 {{ i += 1; [1, als i == 1 {{ {j} }} anders {{ 2 }}, 3] }}; i"));
+        // a body that is nothing else; two in a row; after an unreachable statement
+        v.push(format!("zolang ja {{ {j} }}").replace("zolang ja { volgende }", "stel i = 0; zolang i < 2 { i += 1; volgende }"));
+        v.push(format!("stel i = 0; zolang i < 2 {{ i += 1; {j}; {j} }}; i"));
+        v.push(format!("stel i = 0; zolang i < 2 {{ i += 1; {{ {{ {j} }} }}; 5 }}; i"));
+        // nested loops: the outer with two, the inner with none
+        v.push(format!("stel i = 0; zolang i < 3 {{ i += 1; als i == 1 {{ {j} }}; stel k = 0; zolang k < 2 {{ k += 1 }}; als i == 2 {{ {j} }} }}; i"));
+    }
+    for t in [
+        "functie g() { zolang ja { antwoord 1 + als ja { antwoord 2 } anders { 3 } } } g()",
+        "functie g() { stel a = [1, als ja { antwoord 7 } anders { 2 }, 3]; a } g()",
+        "functie g() { print(1, als ja { antwoord 7 }); 9 } g()",
+        "functie g() { zolang ja { zolang ja { antwoord 5 } } } g()",
+        "functie g() { functie h() { antwoord 3 }; h() + 1 } g()",
+        "functie g(p) { als p { { { antwoord 1 } } }; 2 } [g(ja), g(nee)]",
+        "functie g(p, q) { als p { stel a = 1; als q { stel b = 2; antwoord a + b } }; 0 } [g(ja, ja), g(ja, nee), g(nee, ja)]",
+        "functie g(a, b) { { stel c = a; { stel d = b; { stel e = c + d; antwoord e } } } } g(2, 3)",
+        "functie g(a) { als a > 0 { stel b = a * 2; zolang b > 0 { stel c = b; b -= 1; als c == a { antwoord c } } }; 0 } g(3)",
+    ] {
+        v.push(t.to_string());
+    }
+    v
+}
+
 pub fn candidate_texts(seed: u64, n: u64) -> Vec<(String, String)> {
     let mut out = Vec::new();
+    for t in placement_corners() {
+        out.push(("placement".to_string(), t));
+    }
     let mut rng = StdRng::seed_from_u64(seed ^ 0x5eed);
     let fams = ["mixed", "calls", "control", "seq", "names"];
     let mut i = 0u64;
@@ -94,7 +141,7 @@ pub fn candidate_texts(seed: u64, n: u64) -> Vec<(String, String)> {
             out.push(("random-tokens".to_string(), random_tokens(&mut rng, len)));
         }
     }
-    out.truncate(n as usize);
+    out.truncate((n as usize).max(placement_corners().len()));
     out
 }
 
